@@ -225,7 +225,7 @@ func registerIntrinsics(p *Program) {
 	for _, n := range []string{
 		"(*sync.Mutex).Lock", "(*sync.Mutex).Unlock", "(*sync.RWMutex).Lock", "(*sync.RWMutex).Unlock",
 		"(*sync.RWMutex).RLock", "(*sync.RWMutex).RUnlock", "(*sync.WaitGroup).Add", "(*sync.WaitGroup).Done",
-		"(*sync.WaitGroup).Wait", "runtime.KeepAlive", "runtime.Gosched", "(*sync.Pool).Put",
+		"(*sync.WaitGroup).Wait", "(*sync.Cond).Signal", "(*sync.Cond).Broadcast", "runtime.KeepAlive", "runtime.Gosched", "(*sync.Pool).Put",
 		"runtime.SetFinalizer",
 	} {
 		I[n] = noop
